@@ -348,7 +348,9 @@ class Check(object):
             samples=samples or [dict(note='no obligations')],
             checker_cmd='/usr/bin/z3 (4.8.12) %s ; structural queries: (check-sat)' % smt.NRA_TACTIC,
             trusted_base=['clang-14 lowering of /repo sources to LLVM IR', 'irdump + Engine A interpreter (/verif/mv)', 'contract models in mv/models.py',
-                          'reference operators in /verif/spec', 'z3 4.8.12'],
+                          'reference operators in /verif/spec', 'z3 4.8.12',
+                          'call-effect cache: get_list_mms (catalogue construction) is executed once per process and its recorded effect replayed; accepted only without symbolic decisions and with stores confined to new regions and its output vector; assumed to read no mutable state'],
+            refuted_concretely=[ob.name for ob in props if ob.result and ob.result.get('refuted_concretely')],
             explanation='Bounded/unbounded symbolic checking: the functions listed in functions_encoded are executed symbolically from the clang IR of /repo\'s working tree; '
                         'each obligation is the negation of the property over all symbolic inputs and is discharged by an unsat verdict of the SMT solver. '
                         'Bounds: %s' % json.dumps(self.bounds, sort_keys=True),
